@@ -1,12 +1,119 @@
-import Proofs.Basic
+import Proofs.Scan
 /-!
 # C18 — a tag is recognised only at a field boundary
+
+The decoder and `ValueByTag` never split a message into fields; they search its bytes for
+`tag=` at offset 0 or `SOH tag =` anywhere. The theorems say that this search *is* a lookup at
+field boundaries, for **every** byte string that ends with the delimiter (`wireFields w = some fs`
+holds exactly for those, `fs` being its SOH-separated fields) and every tag without SOH / '=':
+
+* `C18_boundary`  (any bytes at all): a reported offset is 0 or directly after a SOH, and `tag=`
+  starts there — never in the middle of a longer tag, never inside a value;
+* `C18_scan`: the value `scanKeyValue` extracts is the value of the first field whose *whole* tag
+  equals the key (the independent spec `lookupField`: split at SOH, split each field at its first
+  '=', compare tags for equality), and the field is reported absent iff no field has that tag;
+* `C18_valueByTag`: the same for `fix.ValueByTag`, which prefers fields after the first one.
+
+(End-of-message detection in the stream reader is the other half of this property; its theorems
+are `C04_frame*` in `Props/C04.lean`, over the reader model `feed`.)
 -/
-theorem C18_placeholder_fieldIndex_prefix (k v rest : Bytes) :
-    fieldIndex (k ++ EQ :: v ++ rest) k = some 0 := by
-  unfold fieldIndex
-  have : (k ++ [EQ]).isPrefixOf (k ++ EQ :: v ++ rest) = true := by
-    induction k with
-    | nil => simp [List.isPrefixOf]
-    | cons c cs ih => simp [List.isPrefixOf, ih]
-  simp
+
+/-- only at a boundary, only the whole tag — for every byte string -/
+theorem C18_boundary (w k : Bytes) (off : Nat) (h : fieldIndex w k = some off) :
+    (off = 0 ∨ w[off - 1]? = some SOH) ∧ (k ++ [EQ]).isPrefixOf (w.drop off) = true := by
+  unfold fieldIndex at h
+  simp only at h
+  split at h
+  · rename_i hp
+    simp at h; subst h
+    exact ⟨Or.inl rfl, by simpa using hp⟩
+  · cases hi : indexOf (SOH :: (k ++ [EQ])) w with
+    | none => simp [hi] at h
+    | some j =>
+      simp [hi] at h; subst h
+      have hp := indexOf_prefix _ _ _ hi
+      have hb := indexOf_bound _ _ _ hi
+      simp only [List.length_cons] at hb
+      have hj : j < w.length := by omega
+      rw [List.drop_eq_getElem_cons hj] at hp
+      simp only [List.isPrefixOf, Bool.and_eq_true, beq_iff_eq] at hp
+      refine ⟨Or.inr ?_, hp.2⟩
+      simp [List.getElem?_eq_getElem hj, hp.1]
+
+/-- the decoder's field search is the boundary lookup of the independent spec -/
+theorem C18_scan (w k : Bytes) (fs : List Bytes) (hw : wireFields w = some fs)
+    (hk : SOH ∉ k) (hk2 : EQ ∉ k) : scanValue w k = .ok (lookupField k fs) := by
+  obtain ⟨rfl, hfs⟩ := wireFields_some w fs hw
+  rw [scanValue_joinF k hk fs hfs, lookupField_eq k hk2]
+
+/-- `scanKeyValue` on a KeyValue: untouched when no field has the tag, else `FromBytes` of that field's value -/
+theorem C18_scanKV (w k : Bytes) (fs : List Bytes) (v : Val) (hw : wireFields w = some fs)
+    (hk : SOH ∉ k) (hk2 : EQ ∉ k) :
+    scanKV w k v = match lookupField k fs with
+      | none => .ok v
+      | some b => (match v.fromBytes b with | some v' => .ok v' | none => .err) := by
+  unfold scanKV
+  rw [C18_scan w k fs hw hk hk2]
+  cases lookupField k fs <;> rfl
+
+/-- `fix.ValueByTag` on a message with first field `f0` and further fields `fs` -/
+theorem C18_valueByTag (w tag f0 : Bytes) (fs : List Bytes) (hw : wireFields w = some (f0 :: fs))
+    (hk : SOH ∉ tag) (hk2 : EQ ∉ tag) :
+    valueByTag w tag = match lookupField tag fs with
+      | some v => .ok v
+      | none => (match lookupField tag [f0] with | some v => .ok v | none => .err) := by
+  obtain ⟨rfl, hfs⟩ := wireFields_some w _ hw
+  rw [valueByTag_joinF tag hk f0 fs (hfs f0 (by simp)) (fun g hg => hfs g (by simp [hg]))]
+  unfold vbtSpec
+  rw [lookupField_eq tag hk2 fs, lookupField_eq tag hk2 [f0]]
+  cases lookupPref tag fs with
+  | some v => rfl
+  | none =>
+    simp only [lookupPref]
+    split <;> rfl
+
+/-- whatever `ValueByTag` returns is the value of a field whose whole tag is the requested one -/
+theorem C18_valueByTag_sound (w tag v : Bytes) (fs : List Bytes) (hw : wireFields w = some fs)
+    (hk : SOH ∉ tag) (hk2 : EQ ∉ tag) (h : valueByTag w tag = .ok v) : (tag ++ EQ :: v) ∈ fs := by
+  have mem_of_lookup : ∀ (l : List Bytes) (x : Bytes), lookupPref tag l = some x → (tag ++ EQ :: x) ∈ l := by
+    intro l
+    induction l with
+    | nil => intro x hx; simp [lookupPref] at hx
+    | cons f l ih =>
+      intro x hx
+      unfold lookupPref at hx
+      split at hx
+      · rename_i hp
+        simp at hx; subst hx
+        have := isPrefixOf_drop _ _ hp
+        simp only [List.length_append, List.length_singleton, List.append_assoc, List.singleton_append] at this
+        simp [← this]
+      · simp [ih x hx]
+  cases fs with
+  | nil =>
+    obtain ⟨rfl, _⟩ := wireFields_some w _ hw
+    simp [joinF, valueByTag] at h
+  | cons f0 fs =>
+    rw [C18_valueByTag w tag f0 fs hw hk hk2, lookupField_eq tag hk2 fs, lookupField_eq tag hk2 [f0]] at h
+    cases hl : lookupPref tag fs with
+    | some x =>
+      simp [hl] at h; subst h
+      simp [mem_of_lookup fs x hl]
+    | none =>
+      simp only [hl] at h
+      cases hl0 : lookupPref tag [f0] with
+      | none => simp [hl0] at h
+      | some x =>
+        simp [hl0] at h; subst h
+        have := mem_of_lookup [f0] x hl0
+        simp at this
+        simp [this]
+
+/-- non-vacuity and the point of the property: in `8=F|1035=X|35=D|58=35=Z|10=000|` the tag 35 is found in
+    the third field — not inside tag 1035, not inside the value of 58 -/
+example :
+    let w : Bytes := [56,61,70,1, 49,48,51,53,61,88,1, 51,53,61,68,1, 53,56,61,51,53,61,90,1, 49,48,61,48,48,48,1]
+    wireFields w = some [[56,61,70], [49,48,51,53,61,88], [51,53,61,68], [53,56,61,51,53,61,90], [49,48,61,48,48,48]]
+    ∧ scanValue w [51,53] = .ok (some [68])
+    ∧ valueByTag w [51,53] = .ok [68] := by
+  decide
